@@ -1,11 +1,12 @@
 //! One module per property.
 
+pub mod c01;
 pub mod c19;
 
 use crate::exec::Prop;
 
 pub fn all() -> Vec<Box<dyn Prop>> {
-    vec![Box::new(c19::C19)]
+    vec![Box::new(c01::C01), Box::new(c19::C19)]
 }
 
 pub fn by_id(id: &str) -> Option<Box<dyn Prop>> {
